@@ -38,5 +38,7 @@ for d in ../drv_*.ml; do
   fi
 done
 CMX=$(for f in $ORDER wire.ml $WF $DRVS; do case $f in *.ml) echo ${f%.ml}.cmx;; esac; done)
-timeout 900 ocamlfind ocamlopt -w -a $CMX main.ml -o ../$OUT
+# link beside the target and rename, so that a check that is executing the old binary is not disturbed
+timeout 900 ocamlfind ocamlopt -w -a $CMX main.ml -o ../$OUT.new.$$
+mv -f ../$OUT.new.$$ ../$OUT
 echo "built extract/$OUT with drivers:$DRVS"
